@@ -27,6 +27,18 @@ fn c04_subs() -> Vec<Box<dyn Sub>> {
             max_shrink: 96,
         }),
         Box::new(Check {
+            name: "builtin_families",
+            quick: 112,
+            thorough: 1_600,
+            strat: Box::new(|| {
+                use proptest::prelude::*;
+                (0u8..crate::gen::N_FAMILIES, crate::gen::entropies(24)).prop_map(|(k, entropies)| ProgCase { prog: crate::gen::family_program(k), entropies }).boxed()
+            }),
+            body: Box::new(|c: &ProgCase, obs: &mut Obs| values_body(c, obs, true)),
+            guard_death: false,
+            max_shrink: 32,
+        }),
+        Box::new(Check {
             name: "builtin_shapes",
             quick: 200,
             thorough: 4_000,
